@@ -123,7 +123,13 @@ pub fn proxy_outcome(c: &ProxyCase) -> Outcome {
             let mut clients: Vec<ClientRt> = vec![];
             let mut ids: Vec<Vec<u8>> = vec![];
             for (i, cs) in c.clients.iter().enumerate() {
-                let id = format!("client-{}", i).into_bytes();
+                // identities of 8, 255 (the maximum) and 1 bytes
+                let mut id = format!("client-{}", i).into_bytes();
+                match i % 4 {
+                    1 => id.resize(255, b'x'),
+                    2 => id = vec![b'A' + i as u8],
+                    _ => {}
+                }
                 if cs.kind == 2 {
                     let s = sim.socket(Kind::Req, Some(&id));
                     let (x, y, ab, ba) = sim.connect_libs(s, front, true);
